@@ -55,6 +55,83 @@ pub const PRESENTATION_FLAGS: &[&[&str]] = &[
     &["--anon-fields-prefix", "anonf_"],
 ];
 
+/// Systematic family the random generator reaches only rarely: a member whose C alignment
+/// exceeds what its Rust type carries (aligned typedef, member attribute, over-aligned
+/// struct, 16-aligned scalar), placed after a gap of 1..15 bytes, in structs and unions.
+/// One program per (over-aligned kind, alignment); two option sets each.
+fn overaligned_member_grid() -> Vec<Case> {
+    let mut cases = vec![];
+    let elems = [Prim::Char, Prim::Int, Prim::Double];
+    for kind in 0..4usize {
+        for a in [16u32, 32] {
+            if kind == 3 && a == 32 {
+                continue;
+            }
+            let mut decls: Vec<Decl> = vec![];
+            // declaration 0: the over-aligned type (when it needs one)
+            let mut member_tys: Vec<(Ty, Option<u32>)> = vec![];
+            match kind {
+                0 => {
+                    for (k, e) in elems.iter().enumerate() {
+                        decls.push(Decl::Typedef { name: format!("al{a}_{k}"), ty: Ty::Prim(*e), aligned: Some(a) });
+                        member_tys.push((Ty::Named(k), None));
+                    }
+                }
+                1 => {
+                    for e in elems.iter() {
+                        member_tys.push((Ty::Prim(*e), Some(a)));
+                    }
+                }
+                2 => {
+                    decls.push(Decl::Comp(Comp {
+                        is_union: false,
+                        tag: Some(format!("Over{a}")),
+                        fields: vec![Field { name: "v".into(), ty: FieldTy::Ty(Ty::Prim(Prim::Int)), bits: None, align: None }],
+                        packed: false,
+                        aligned: Some(a),
+                        pragma_pack: None,
+                        typedef_name: None,
+                    }));
+                    member_tys.push((Ty::Named(0), None));
+                }
+                _ => {
+                    member_tys.push((Ty::Prim(Prim::LongDouble), None));
+                    member_tys.push((Ty::Prim(Prim::Int128), None));
+                }
+            }
+            let mut n = 0usize;
+            for (mt, malign) in &member_tys {
+                for gap in [1u64, 3, 4, 7, 8, 12, 15] {
+                    for is_union in [false, true] {
+                        if is_union && gap != 1 {
+                            continue;
+                        }
+                        let prefix_len = a as u64 - gap;
+                        let mut fields = vec![];
+                        if prefix_len >= 8 && gap % 4 == 0 {
+                            // a scalar head and a small array: the gap follows a 4-byte member
+                            fields.push(Field { name: "h".into(), ty: FieldTy::Ty(Ty::Prim(Prim::LongLong)), bits: None, align: None });
+                            if prefix_len > 8 {
+                                fields.push(Field { name: "p".into(), ty: FieldTy::Ty(Ty::Array { of: Box::new(Ty::Prim(Prim::Int)), dims: vec![ArrLen::Fixed(((prefix_len - 8) / 4) as u32)] }), bits: None, align: None });
+                            }
+                        } else {
+                            fields.push(Field { name: "p".into(), ty: FieldTy::Ty(Ty::Array { of: Box::new(Ty::Prim(Prim::Char)), dims: vec![ArrLen::Fixed(prefix_len as u32)] }), bits: None, align: None });
+                        }
+                        fields.push(Field { name: "x".into(), ty: FieldTy::Ty(mt.clone()), bits: None, align: *malign });
+                        fields.push(Field { name: "tail".into(), ty: FieldTy::Ty(Ty::Prim(Prim::Int)), bits: None, align: None });
+                        decls.push(Decl::Comp(Comp { is_union, tag: Some(format!("G{kind}_{a}_{n}")), fields, packed: false, aligned: None, pragma_pack: None, typedef_name: None }));
+                        n += 1;
+                    }
+                }
+            }
+            let mut prog = Program { decls };
+            prog.normalise();
+            cases.push(Case { prog, opt_sets: vec![vec![], vec!["--explicit-padding".into()]], keep_known: false });
+        }
+    }
+    cases
+}
+
 pub fn opt_set_strategy() -> BoxedStrategy<Vec<String>> {
     proptest::collection::vec(0..PRESENTATION_FLAGS.len(), 1..4)
         .prop_map(|idx| {
@@ -79,7 +156,7 @@ pub fn opt_set_strategy() -> BoxedStrategy<Vec<String>> {
 }
 
 /// Class of a comp for signatures: which layout features are in play.
-fn comp_class(c: &Comp) -> String {
+fn comp_class(p: &Program, c: &Comp) -> String {
     fn feat(c: &Comp, out: &mut BTreeSet<&'static str>) {
         if c.packed {
             out.insert("packed");
@@ -129,8 +206,30 @@ fn comp_class(c: &Comp) -> String {
             }
         }
     }
+    fn typedef_align(p: &Program, c: &Comp, out: &mut BTreeSet<&'static str>) {
+        for f in &c.fields {
+            match &f.ty {
+                FieldTy::Inline(ic) => typedef_align(p, ic, out),
+                FieldTy::Ty(Ty::Named(k)) => {
+                    let mut k = *k;
+                    loop {
+                        match &p.decls[k] {
+                            Decl::Typedef { aligned: Some(a), .. } => {
+                                out.insert(if *a <= 8 { "aligned-typedef-le8" } else { "aligned-typedef" });
+                                break;
+                            }
+                            Decl::Typedef { ty: Ty::Named(j), .. } => k = *j,
+                            _ => break,
+                        }
+                    }
+                }
+                _ => {}
+            }
+        }
+    }
     let mut s = BTreeSet::new();
     feat(c, &mut s);
+    typedef_align(p, c, &mut s);
     if s.is_empty() {
         "plain".into()
     } else {
@@ -322,6 +421,9 @@ impl Property for C02 {
     fn generated(&self, tier: Tier) -> usize {
         tier.pick(250, 6000)
     }
+    fn fixed_cases(&self, _tier: Tier) -> Vec<Case> {
+        overaligned_member_grid()
+    }
     fn evaluate(&self, case: &Case, env: &Env) -> Outcome {
         let mut out = Outcome::new();
         out.evaluations = 0;
@@ -376,7 +478,7 @@ impl Property for C02 {
                 let (kind, rest) = key.split_once(':').unwrap();
                 let idx: usize = rest.split(':').next().unwrap().parse().unwrap_or(0);
                 let class = match &prog.decls[idx] {
-                    Decl::Comp(c) => comp_class(c),
+                    Decl::Comp(c) => comp_class(&prog, c),
                     Decl::Enum(_) => "enum".into(),
                     Decl::Typedef { .. } => "typedef".into(),
                     _ => "?".into(),
@@ -410,7 +512,7 @@ impl Property for C02 {
         // classes and non-triviality
         for d in &prog.decls {
             if let Decl::Comp(c) = d {
-                let cl = comp_class(c);
+                let cl = comp_class(&prog, c);
                 let nested = c.fields.iter().any(|f| matches!(f.ty, FieldTy::Inline(_)) || matches!(&f.ty, FieldTy::Ty(Ty::Named(_))));
                 let arr = c.fields.iter().any(|f| matches!(&f.ty, FieldTy::Ty(Ty::Array { .. })));
                 if c.fields.len() >= 2 && (nested || arr || cl != "plain") {
@@ -436,7 +538,7 @@ fn first_failing_class(p: &Program, stderr: &str) -> String {
                 if let Decl::Comp(c) = d {
                     let n = d.rust_name().unwrap_or_default();
                     if name == n || name.starts_with(&format!("{n}_")) {
-                        return comp_class(c);
+                        return comp_class(p, c);
                     }
                 }
             }
